@@ -240,6 +240,7 @@ class Interp:
                 self_av = AV(ty='class', cls=fi.cls.qualname)
             else:
                 self_av = self.model.symbolic_instance(self, st, fi.cls)
+        self.entry_self = self_av
         ret = self.call_function(fi, [], args, st, self_av=self_av, node=None, symbolic_missing=True)
         return ret, st
 
